@@ -300,13 +300,13 @@ def offset_consumers(p):
     return out
 
 
-def rule_rest(ctx):
+def rule_rest(ctx, R="C05.REST", K="C05.KEEP"):
     p = ctx.p
-    ctx.rule("C05.REST", "the restart offset is captured synchronously in the consuming handler, cleared before it returns, never read later in the worker")
-    ctx.rule("C05.KEEP", "dispatcher keep-set == set of verbs whose handler consumes the offset")
+    ctx.rule(R, "the restart offset is captured synchronously in the consuming handler, cleared before it returns, never read later in the worker")
+    ctx.rule(K, "dispatcher keep-set == set of verbs whose handler consumes the offset")
     keep, knode = keep_set(p)
     consumers = offset_consumers(p)
-    ctx.ob("C05.KEEP", knode, f"keep-set {sorted(keep)} equals consuming verbs {sorted(consumers)}", set(consumers) == keep,
+    ctx.ob(K, knode, f"keep-set {sorted(keep)} equals consuming verbs {sorted(consumers)}", set(consumers) == keep,
            f"dispatcher keeps the restart offset for {sorted(keep)} but the handlers that consume it serve {sorted(consumers)}",
            construct=f"keep={sorted(keep)} consumers={sorted(consumers)}")
     # the clearing statement really clears (constant 0) and is on the non-keep branch
@@ -315,7 +315,7 @@ def rule_rest(ctx):
         nested_reads = [n for w in p.nested_functions(fn) for n in ast.walk(w)
                         if isinstance(n, ast.Attribute) and n.attr == "restart_offset" and isinstance(n.ctx, ast.Load)]
         body_reads = [n for n in walk_no_nested(fn) if isinstance(n, ast.Attribute) and n.attr == "restart_offset" and isinstance(n.ctx, ast.Load)]
-        ctx.ob("C05.REST", nested_reads[0] if nested_reads else fn, f"{fn.name}: the offset is not read inside the deferred worker", not nested_reads,
+        ctx.ob(R, nested_reads[0] if nested_reads else fn, f"{fn.name}: the offset is not read inside the deferred worker", not nested_reads,
                f"{fn.name}: the restart offset is read inside the deferred worker, after other commands may have cleared or changed it",
                construct=f"{fn.name}:late-read")
         # on every normal path of the handler: a read happens and a reset to 0 follows it before any may-suspend point after spawn... simply: reset on every path that reads
@@ -346,16 +346,16 @@ def rule_rest(ctx):
             if read_seen and suspended_before_read:
                 bad_order = True
         if not nested_reads or body_reads:
-            ctx.ob("C05.REST", fn, f"{fn.name}: every path that consumes the offset clears it before returning", any_read and not bad_noreset,
+            ctx.ob(R, fn, f"{fn.name}: every path that consumes the offset clears it before returning", any_read and not bad_noreset,
                    f"{fn.name}: the restart offset is never cleared by the transfer that consumes it; it also applies to the next transfer",
                    construct=f"{fn.name}:no-reset")
-            ctx.ob("C05.REST", fn, f"{fn.name}: the offset is captured before the handler's first suspension point", not bad_order,
+            ctx.ob(R, fn, f"{fn.name}: the offset is captured before the handler's first suspension point", not bad_order,
                    f"{fn.name}: the handler suspends before capturing the restart offset; an interleaved command may clear or change it",
                    construct=f"{fn.name}:suspend-before-capture")
         else:
-            ctx.fail("C05.REST", fn, f"{fn.name}: the restart offset is never cleared by the transfer that consumes it; it also applies to the next transfer",
+            ctx.fail(R, fn, f"{fn.name}: the restart offset is never cleared by the transfer that consumes it; it also applies to the next transfer",
                      construct=f"{fn.name}:no-reset")
-    ctx.floor("C05.REST", 4, "obligations on consuming handlers")
+    ctx.floor(R, 4, "obligations on consuming handlers")
     # REST handler stores int(rest) and resets on the error path
     table, _ = p.command_table()
     if "rest" in table:
@@ -364,7 +364,7 @@ def rule_rest(ctx):
         sigs = handler_path_sigs(p, rh, conn)
         stores = [s for s, t in attr_stores(rh, "restart_offset") if isinstance(s, ast.Assign)]
         good = any(isinstance(s.value, ast.Call) and (dotted(s.value.func) == "int") and src(s.value.args[0]) == rest for s in stores)
-        ctx.ob("C05.REST", rh, "REST stores int(<argument>) as the offset", good, "REST does not store int(argument) as the restart offset", construct="rest:store")
+        ctx.ob(R, rh, "REST stores int(<argument>) as the offset", good, "REST does not store int(argument) as the restart offset", construct="rest:store")
 
 
 def mask_matches(mask, code):
